@@ -4,6 +4,7 @@ use crate::pool::*;
 use crate::probes::{self, FaultCfg, ProbeCtx, ProbeStats};
 use crate::profiles;
 use crate::report::Report;
+use crate::sweeps::{self, SweepCtx};
 
 pub fn level_of(prop: &str) -> &'static str {
     match prop {
@@ -105,7 +106,7 @@ pub fn run_property(prop: &str, tier: &str, threads: usize, budget: &Budget, fin
                 let s2 = bfs(&env, report, &wide, Roots::Seeds, ds, Props::default(), true);
                 states.extend(flatten(&s2, ds));
             } else {
-                states.extend(profiles::seeds(&wide));
+                states.extend(flatten(&bfs(&env, report, &wide, Roots::Seeds, 0, Props::default(), true), 0));
             }
             let stats = ProbeStats::default();
             let cx = ProbeCtx { prof: &wide, findings, stats: &stats };
@@ -113,6 +114,128 @@ pub fn run_property(prop: &str, tier: &str, threads: usize, budget: &Budget, fin
             let (done, complete) = for_each_state(&states, threads, budget, |h| probes::fault_probe(&cx, h, &cfg));
             report.add_probe(stats.to_json("allocation-refusal", done, complete));
             report.bounds.push(format!("fault probe: states up to depth {dw} of wide + seeds; single refusals, in-call second refusals, and pairs across one follow-up operation"));
+        }
+        "C06" => {
+            report.rule = "for every stored state and every live handle: try_reserve / reserve / try_shrink_to / shrink_to / extend(iterator with size_hint lower bound n yielding 0-2 items) for every n in SIZES (powers of two +-2, the 56-bit limit +-3, isize::MAX +-2, usize::MAX-2.., each minus the current length, len+-1, cap+-1); state-independent: try_with_capacity / with_capacity / collect with hint n; requests above 1 MiB are refused by the shim; distinct = distinct (entry point, target storage, outcome)".into();
+            let dw = if quick { 2 } else { 3 };
+            let stored = bfs(&env, report, &wide, Roots::Empty, dw, Props::default(), true);
+            let mut states = flatten(&stored, dw);
+            states.extend(flatten(&bfs(&env, report, &wide, Roots::Seeds, 0, Props::default(), true), 0));
+            let stats = ProbeStats::default();
+            let cx = ProbeCtx { prof: &wide, findings, stats: &stats };
+            let (done, complete) = for_each_state(&states, threads, budget, |h| probes::size_probe(&cx, h));
+            probes::size_ctor_sweep(&cx);
+            report.add_probe(stats.to_json("size-arguments", done, complete));
+            report.bounds.push(format!("size probe: states up to depth {dw} of wide + seeds; about {} size values per handle; giant threshold 1 MiB", probes::size_values(20, 30).len()));
+        }
+        "C07" => {
+            report.rule = "(a) for every stored state and every live handle: insert / insert_str / insert_str(\"\") / remove / truncate and their try_ forms at every byte index 0..=len+2, String as the reference for accept/panic; a rejected call must leave the exact canonical pool unchanged and issue no allocator request; (b) every text over the four character widths up to the stated length in 7 storage states (inline, static, static truncated, heap exact/spare, heap shared equal/shorter) x the same operations x every index".into();
+            let (dw, di) = if quick { (2, 2) } else { (3, 3) };
+            let stored = bfs(&env, report, &wide, Roots::Empty, dw, Props::default(), true);
+            let mut states = flatten(&stored, dw);
+            states.extend(flatten(&bfs(&env, report, &wide, Roots::Seeds, 0, Props::default(), true), 0));
+            let stats = ProbeStats::default();
+            let cx = ProbeCtx { prof: &wide, findings, stats: &stats };
+            let (done, complete) = for_each_state(&states, threads, budget, |h| probes::index_probe(&cx, h));
+            report.add_probe(stats.to_json("every-index/wide-states", done, complete));
+            let stored = bfs(&env, report, &index, Roots::Empty, di, Props::only("C01"), true);
+            let states = flatten(&stored, di.min(2));
+            let stats = ProbeStats::default();
+            let cx = ProbeCtx { prof: &index, findings, stats: &stats };
+            let (done, complete) = for_each_state(&states, threads, budget, |h| probes::index_probe(&cx, h));
+            report.add_probe(stats.to_json("every-index/index-states", done, complete));
+            let sp = sweeps::sweep_profile();
+            let stats = ProbeStats::default();
+            let scx = SweepCtx { prof: &sp, findings, stats: &stats };
+            sweeps::c07_text_sweep(&scx, quick, threads);
+            report.add_probe(stats.to_json("every-index/text-sweep", 0, true));
+        }
+        "C08" => {
+            report.rule = "every clone / clone_from / assignment / From<&LeanString> / to_lean_string(LeanString) transition of the explored graph: zero allocator requests, same pointer (heap, static) or bitwise copy (inline), reference count +1, exactly the one expected release for clone_from; plus a sweep over lengths 0..=80,100,1000,4096(,65536,1 MiB) x 7 storage states x 5 cloning methods x clone counts x 3 drop orders".into();
+            let (dw, ds, dsh) = if quick { (4, 2, 3) } else { (5, 3, 6) };
+            bfs(&env, report, &wide, Roots::Empty, dw, props, true);
+            bfs(&env, report, &wide, Roots::Seeds, ds, props, true);
+            bfs(&env, report, &share, Roots::Seeds, dsh, props, true);
+            let sp = sweeps::sweep_profile();
+            let stats = ProbeStats::default();
+            let scx = SweepCtx { prof: &sp, findings, stats: &stats };
+            sweeps::c08_sweep(&scx, quick, threads);
+            report.add_probe(stats.to_json("clone-sweep", 0, true));
+        }
+        "C09" => {
+            report.rule = "inline profile: every history of edits that keeps the text within the inline limit (K=2) - no allocator request, storage stays inline; every constructor transition of the wide graph; constructor sweep: every text over the four widths up to the stated length, every possible 16th byte (192 x 3 shapes + 128 ASCII), lengths 17..=80/100/1000/65536 through 10 constructors; every char; both bools; every digit count of every integer type".into();
+            let (dinl, dw) = if quick { (5, 3) } else { (7, 4) };
+            bfs(&env, report, &inline, Roots::Empty, dinl, props, true);
+            bfs(&env, report, &wide, Roots::Empty, dw, props, true);
+            bfs(&env, report, &wide_try, Roots::Empty, dw, props, true);
+            let sp = sweeps::sweep_profile();
+            let stats = ProbeStats::default();
+            let scx = SweepCtx { prof: &sp, findings, stats: &stats };
+            sweeps::c09_sweep(&scx, quick, threads);
+            report.add_probe(stats.to_json("constructor-sweep", 0, true));
+        }
+        "C10" => {
+            report.rule = "static profile: every history over handles built by from_static_str (texts of 16, 17 and 40 bytes with mixed widths) plus one heap text; after every step the harness-owned writable 'static buffers are compared with pristine copies; from_static_str / clone / pop / truncate / clear must issue no allocator request and keep pointing at the caller's bytes".into();
+            let (dst, dw, ds) = if quick { (4, 3, 2) } else { (6, 4, 3) };
+            bfs(&env, report, &statics, Roots::Empty, dst, props, true);
+            bfs(&env, report, &statics, Roots::Seeds, ds, props, true);
+            bfs(&env, report, &wide, Roots::Empty, dw, props, true);
+            bfs(&env, report, &wide, Roots::Seeds, ds, props, true);
+        }
+        "C11" => {
+            report.rule = "every transition of the explored graph: capacity >= len for every handle; with_capacity(n) >= n; successful reserve(n): capacity >= len+n and storage exclusively owned; appends/inserts that fit the capacity reported just before on an exclusively owned target: zero allocator requests and the text does not move".into();
+            let (dw, dt, ds, dsh) = if quick { (4, 3, 2, 3) } else { (5, 4, 4, 6) };
+            bfs(&env, report, &wide, Roots::Empty, dw, props, true);
+            bfs(&env, report, &wide_try, Roots::Empty, dt, props, true);
+            bfs(&env, report, &wide, Roots::Seeds, ds, props, true);
+            bfs(&env, report, &share, Roots::Seeds, dsh, props, true);
+        }
+        "C12" => {
+            report.rule = "every growth event (single-reservation operation with old_len + additional > old_capacity whose result is a heap buffer) of the explored graph: old_len + old_len/2 <= new_capacity <= max(old_len + old_len/2, old_len + additional); sweep reserve/push_str/insert_str of 1..=N bytes on lengths 0..=N in 7 storage states; four push-one-char loops observing every prefix: allocator requests never exceed the slowest growth the statement permits, bytes copied <= 3*n*w+64".into();
+            let (dw, ds, dst) = if quick { (4, 2, 3) } else { (5, 4, 5) };
+            bfs(&env, report, &wide, Roots::Empty, dw, props, true);
+            bfs(&env, report, &wide, Roots::Seeds, ds, props, true);
+            bfs(&env, report, &statics, Roots::Empty, dst, props, true);
+            let sp = sweeps::sweep_profile();
+            let stats = ProbeStats::default();
+            let scx = SweepCtx { prof: &sp, findings, stats: &stats };
+            sweeps::c12_sweep(&scx, quick, threads);
+            report.add_probe(stats.to_json("growth-sweep", 0, true));
+        }
+        "C13" => {
+            report.rule = "every shrink_to / shrink_to_fit transition of the explored graph, and for every stored state and every live handle: shrink_to_fit and shrink_to(m) for every m in 0..=capacity+2 and every m of C06's SIZES, both forms; oracle = the statement's capacity algebra, texts of all handles unchanged, other handles untouched".into();
+            let (dw, dp, dsh) = if quick { (3, 2, 3) } else { (4, 3, 5) };
+            let stored = bfs(&env, report, &wide, Roots::Empty, dw, props, true);
+            bfs(&env, report, &share, Roots::Seeds, dsh, props, true);
+            let mut states = flatten(&stored, dp);
+            states.extend(flatten(&bfs(&env, report, &wide, Roots::Seeds, 0, Props::default(), true), 0));
+            let stats = ProbeStats::default();
+            let cx = ProbeCtx { prof: &wide, findings, stats: &stats };
+            let (done, complete) = for_each_state(&states, threads, budget, |h| probes::shrink_probe(&cx, h));
+            report.add_probe(stats.to_json("every-m", done, complete));
+        }
+        "C17" => {
+            report.rule = "in every state of the explored graph: all ordered pairs of live handles (==, !=, cmp, partial_cmp, <, >=, Hash with a fixed-key hasher) and every handle against str/&str/String/Cow in both orders, Display/Debug/padding, Borrow/AsRef/Deref, HashMap/BTreeMap lookups by &str and iteration order, all compared with the same operations on the model strs; representation zoo: texts x 9 construction routes, all pairs".into();
+            let (dw, ds, dsh) = if quick { (3, 2, 3) } else { (4, 3, 5) };
+            bfs(&env, report, &wide, Roots::Empty, dw, props, true);
+            bfs(&env, report, &wide, Roots::Seeds, ds, props, true);
+            bfs(&env, report, &share, Roots::Seeds, dsh, props, true);
+            let sp = sweeps::sweep_profile();
+            let stats = ProbeStats::default();
+            let scx = SweepCtx { prof: &sp, findings, stats: &stats };
+            sweeps::c17_zoo(&scx, quick, threads);
+            report.add_probe(stats.to_json("representation-zoo", 0, true));
+        }
+        "C18" => {
+            report.rule = "for every stored state: retain / try_retain with each of 4 predicates panicking at its k-th call (every k); extend with 7 item kinds x {honest, zero} size hints with next() panicking at its k-th call (every k up to items+1); collect with the same iterators; to_lean_string / try_to_lean_string on a Display that panics after j pieces; reference = String under the same callback; afterwards all other handles unchanged, reference counts consistent, closing leaves zero live blocks; distinct = distinct (call, target storage, outcome)".into();
+            let dw = if quick { 2 } else { 3 };
+            let stored = bfs(&env, report, &wide, Roots::Empty, dw, Props::default(), true);
+            let mut states = flatten(&stored, dw);
+            states.extend(flatten(&bfs(&env, report, &wide, Roots::Seeds, 0, Props::default(), true), 0));
+            let stats = ProbeStats::default();
+            let cx = ProbeCtx { prof: &wide, findings, stats: &stats };
+            let (done, complete) = for_each_state(&states, threads, budget, |h| probes::panic_probe(&cx, h));
+            report.add_probe(stats.to_json("callback-panics", done, complete));
         }
         _ => {
             report.machinery_errors.push(format!("seqmc has no plan for property {prop}"));
